@@ -760,42 +760,11 @@ theorem nodup_filter_keys {β} (q : Str × β → Bool) (t : List (Str × β))
 /-- For a line that the k-th commit itself introduced (the only lines for which blame consults
     the k-th commit's note), the cumulative slow-path note and the per-commit note the
     shortcut copies name the same session. -/
-theorem slow_fast_agree_on_born (head tk : GTree) (changed : List Str) (k : Nat) (hk : 1 ≤ k)
-    (hnd : (tk.map (·.1)).Nodup) (p : Str) (j : Nat) (l : GLine)
-    (hl : lineOf tk p j = some l) (hb : l.born = k) (hch : changed.contains p = true) :
-    lookupLine (slowLines head tk changed) p j = lookupLine (perCommitLines k tk) p j := by
-  have hfast : lookupLine (perCommitLines k tk) p j = l.who := by
-    unfold perCommitLines
-    rw [lookupLine_treeTriples _ tk hnd, hl]
-    simp [hb]
-  have hcum : lookupLine (cumulativeLines (tk.filter (fun pf => changed.contains pf.1))) p j = l.who := by
-    unfold cumulativeLines
-    rw [lookupLine_treeTriples _ _ (nodup_filter_keys _ tk hnd)]
-    have : lineOf (tk.filter (fun pf => changed.contains pf.1)) p j = some l := by
-      unfold lineOf at hl ⊢
-      rw [lookup_filter_keys (fun x => changed.contains x) p tk, hch]
-      simpa using hl
-    rw [this]
-    have : decide (1 ≤ l.born) = true := by simp [hb, hk]
-    simp [this]
-  have hrest : lookupLine (cumulativeLines (head.filter (fun pf => !changed.contains pf.1))) p j = none := by
-    unfold cumulativeLines
-    apply lookupLine_treeTriples_absent
-    intro hm
-    simp only [List.mem_map, List.mem_filter] at hm
-    obtain ⟨pf, ⟨_, hq⟩, rfl⟩ := hm
-    rw [hch] at hq
-    simp at hq
-  unfold slowLines
-  rw [lookupLine_append, hcum, hrest, hfast]
-  cases l.who <;> rfl
-
-/-- the rebase variant: the cumulative note of the commit's own tree -/
-theorem slow_rebase_fast_agree_on_born (tk : GTree) (k : Nat) (hk : 1 ≤ k)
+theorem slow_fast_agree_on_born (tk : GTree) (k : Nat) (hk : 1 ≤ k)
     (hnd : (tk.map (·.1)).Nodup) (p : Str) (j : Nat) (l : GLine)
     (hl : lineOf tk p j = some l) (hb : l.born = k) :
-    lookupLine (slowLinesRebase tk) p j = lookupLine (perCommitLines k tk) p j := by
-  unfold slowLinesRebase cumulativeLines perCommitLines
+    lookupLine (slowLines tk) p j = lookupLine (perCommitLines k tk) p j := by
+  unfold slowLines cumulativeLines perCommitLines
   rw [lookupLine_treeTriples _ tk hnd, lookupLine_treeTriples _ tk hnd, hl]
   have h1 : decide (1 ≤ l.born) = true := by simp [hb, hk]
   have h2 : decide (l.born = k) = true := by simp [hb]
